@@ -171,6 +171,16 @@ def run(rep: Report, prog: Program, tier: str) -> None:
             rep.fail("R9.4", f"classify_for_breaker|retry_none={none_retry}", f"classify_for_breaker returns {show(rv)} (retry is None: {none_retry})", where=fi.where(), function=fi.qual, path=p.describe())
     rep.floor("R9.4", 8)
 
+    rep.rule("R9.5", "what the retry layer delivers is what the policy records: a run aborted by abort_if / AbortRetryError / a sleep handler's ABORT ends by AbortRetryError (call) or stop_reason ABORTED (execute), a deferral by RetryExhaustedError / SCHEDULED (= C13 R13.3, C16 R16.2)")
+    rep.rule("R9.5a", "abort poll placement (re-run of C13 R13.1)")
+    rep.rule("R9.5b", "abort poll before backoff (re-run of C13 R13.2)")
+    rep.rule("R9.5c", "sleep protocol (re-run of C16 R16.1)")
+    from .c13 import abort_flow
+    from .c16 import sleep_protocol
+
+    abort_flow(rep, "R9.5a", "R9.5b", "R9.5", prog)
+    sleep_protocol(rep, "R9.5c", "R9.5", prog)
+
     rep.rule("R9.3", "layering (zero-count rule): nothing in the retry machinery references the breaker, ExecutionContext or the record_* helpers")
     for mn in LAYER_MODULES:
         m = prog.modules.get(mn)
